@@ -150,9 +150,13 @@ func (fx *FuncExec) run() {
 	// requires
 	c := fx.contract
 	if c != nil {
-		for _, r := range c.Requires {
+		for i, r := range c.Requires {
 			env := fx.specEnv(st, fx.entry, fx.bodyPos(), "requires")
-			st.assume(env.Bool(r.Expr))
+			tag := fmt.Sprintf("req.%d", i+1)
+			if r.Label != "" {
+				tag = "req." + r.Label
+			}
+			fx.assumeTagged(st, env.Bool(r.Expr), tag)
 		}
 		fx.entry = st.clone()
 	}
@@ -219,7 +223,7 @@ func (fx *FuncExec) run() {
 					name += fmt.Sprintf("@ret%d", ri+1)
 				}
 				o := &Obligation{Name: name, Func: fx.fi.Key, Kind: "ensures", Label: en.Label, Pos: fx.posStr(fi.Body.End()), Goal: en.Text,
-					PC: append([]string(nil), rs.pc...), Neg: g, Expect: "unsat", fx: fx}
+					PC: append([]string(nil), rs.pc...), Neg: g, Expect: "unsat", Using: en.Using, fx: fx}
 				fx.obls = append(fx.obls, o)
 			}
 		}
